@@ -113,8 +113,11 @@ class SMachine(Machine):
             a, b = self.ev(e['lhs']), self.ev(e['rhs'])
             if isinstance(a, int) and isinstance(b, int) and a - b < 0 and 'unsigned' in (e.get('ty') or ''):
                 raise Unsupported('unsigned length arithmetic wraps (%d - %d)' % (a, b))
-            if isinstance(a, Ptr):
+            if isinstance(a, Ptr) or (isinstance(a, int) and isinstance(b, int)):
                 return a - b
+            if isinstance(a, float) or isinstance(b, float):
+                return float(a) - float(b)
+            raise Unsupported('subtraction of %r and %r' % (a, b))
         return super().ev(e)
 
 
